@@ -25,6 +25,7 @@ type FScheduler interface {
 	Install()
 	SetSelectSeed(seed uint64)
 	SetDriverWait(w func() bool)
+	SetNotify(n chan struct{})
 	Uninstall()
 	Waiters() []FWaiter
 	Resume(w FWaiter)
@@ -223,6 +224,58 @@ func (d *FDriver) Step() bool {
 	// the driver (and its tape) stands still while the resumed goroutine runs to its next yield
 	synctest.Wait()
 	return true
+}
+
+// Advance lets d of simulated time pass. Instrumented goroutines only run when they are resumed, so
+// while the driver sleeps a pump goroutine resumes (tape-chosen order, until idle) whatever a timer
+// woke; goroutines stalled by the fault plan stay held until their hold expires. The pump stops one
+// nanosecond before the end: what the timers of the final instant wake up is left parked at its first
+// yield, so that the driver's next action lands in the middle of the reaction to those timers.
+func (d *FDriver) Advance(dur time.Duration) {
+	if dur <= time.Nanosecond {
+		time.Sleep(dur)
+		return
+	}
+	notify := make(chan struct{}, 1)
+	d.S.SetNotify(notify)
+	done := make(chan struct{})
+	fin := make(chan struct{})
+	go func() {
+		defer close(fin)
+		for {
+			d.Settle(0, 1<<30)
+			select {
+			case <-done:
+				return
+			default:
+			}
+			var expiry <-chan time.Time
+			if d.HoldFor > 0 && len(d.held) > 0 {
+				now := time.Now()
+				first := time.Duration(-1)
+				for _, until := range d.held {
+					if w := until.Sub(now); first < 0 || w < first {
+						first = w
+					}
+				}
+				if first < time.Nanosecond {
+					first = time.Nanosecond
+				}
+				expiry = time.After(first)
+			}
+			select {
+			case <-done:
+				return
+			case <-notify:
+			case <-expiry:
+			}
+		}
+	}()
+	time.Sleep(dur - time.Nanosecond)
+	close(done)
+	<-fin
+	d.S.SetNotify(nil)
+	time.Sleep(time.Nanosecond)
 }
 
 // Settle runs instrumented goroutines until idle, or stops early (leaving goroutines in the middle of
